@@ -10,3 +10,6 @@ NOT_APPLICABLE = {
            "for an explicit TLA+ model to decide (DESIGN.md section 6)",
 }
 CHECKS = {}   # filled by bin/mkmanifest from engines/<id>.py: MANIFEST
+
+# engines that are finished and reviewed; only these are registered in MANIFEST.json
+ENABLED = ["C05", "C13", "C18"]
